@@ -987,9 +987,10 @@ func streamIndex(o opts) {
 			case 0, 1:
 				if _, busy := pending[key]; !busy {
 					resp := &httpcache.Response{StatusCode: 200 + i}
-					mw.VerifStoreIndex(key, resp)
-					pending[key] = resp
-					emit(ints(1, keyNum[key], int64(200+i)), &toks{})
+					if mw.VerifStoreIndex(key, resp) { // false: another in-flight store holds this key's stripe
+						pending[key] = resp
+						emit(ints(1, keyNum[key], int64(200+i)), &toks{})
+					}
 				}
 			case 2, 3:
 				if resp, busy := pending[key]; busy {
@@ -1161,26 +1162,46 @@ func streamIndex(o opts) {
 		mw.Close()
 		m.count("late_race_keys")
 	}
-	// known finding F5: overlapping stores of one key
-	{
+	// regression for finding F5 (fixed): the schedule index r1, index r2, Set r2, r2 evicted and notified, Set r1, driven
+	// through the real store with the cooperative scheduler (a store parks at the yield point inside its cache write).
+	// With stores of one key serialised the second store cannot pass the first one's index step; either way the identity
+	// the index records must be the identity the cache holds at the end.
+	for rep := 0; rep < 3; rep++ {
 		mw := newMW(1000, httpcache.PathExtractorFromKey)
 		key := "GET:/p"
 		r1, r2 := &httpcache.Response{StatusCode: 201}, &httpcache.Response{StatusCode: 202}
-		mw.VerifStoreIndex(key, r1)
-		mw.VerifStoreIndex(key, r2)
-		mw.VerifStoreSet(key, r2, time.Hour)
-		mw.VerifDeleteKey(key)
-		mw.VerifFlushRemovals()
-		mw.VerifStoreSet(key, r1, time.Hour)
-		mw.VerifFlushRemovals()
-		_, _, cached := mw.VerifPeek(key)
-		if n := mw.Invalidate("/p"); cached && n == 0 {
-			m.known("KNOWN-FINDING: property=C15 overlapping stores of one key (index r1, index r2, Set r2, r2 removed and notified, Set r1) leave the key cached but unknown to the path index: Invalidate(/p) returns 0 and the response keeps being served")
+		watch("index overlapping stores of one key")
+		kioshun.VerifSchedReset(true, 200*time.Millisecond)
+		kioshun.VerifSchedSpawn(1, func() { mw.VerifStore(key, r1, time.Hour) })
+		p1 := stepUntil(1, 331) // inside cache.Set, before the shard's drain token: the index step is done
+		kioshun.VerifSchedSpawn(2, func() { mw.VerifStore(key, r2, time.Hour) })
+		p2 := stepUntil(2, 331)
+		if p1 == 331 && p2 == 331 {
+			stepUntil(2, -100) // Set r2
+			mw.VerifDeleteKey(key)
+			mw.VerifFlushRemovals() // r2 evicted, its notification delivered
+			m.count("overlap_second_store_overtook")
 		}
+		stepUntil(1, -100) // Set r1
+		for i := 0; i < 20; i++ {
+			if q := stepUntil(2, -100); q == kioshun.VerifStepDone || q == kioshun.VerifStepUnknown {
+				break
+			}
+		}
+		kioshun.VerifSchedReset(false, 0)
+		mw.VerifFlushRemovals()
+		cachedResp, _, cached := mw.VerifPeek(key)
+		idxResp, indexed := mw.VerifIndexIdentity(key)
+		if cached != indexed || (cached && cachedResp != idxResp) {
+			m.violate("C15", fmt.Sprintf("overlapping stores of one key (index r1, index r2, Set r2, r2 evicted and notified, Set r1): cached=%v indexed=%v (index identity %p, cache identity %p): Invalidate cannot reach a response that keeps being served", cached, indexed, idxResp, cachedResp), "overlapping stores")
+		}
+		quiescentCheck(mw, "overlapping stores of one key")
+		unwatch()
 		mw.Close()
+		m.count("overlap_store_probes")
 	}
 	w.Close()
 	m.Traces, m.Ops = o.n, o.n*62+w.ops
-	m.sample("index r1, index r2, Set r2, delete, notify, Set r1 -> Invalidate returns 0 (known finding F5)")
+	m.sample("two overlapping stores of one key, first parked inside its cache write: index identity == cache identity (regression for F5)")
 	m.write(o.out)
 }
